@@ -1381,6 +1381,39 @@ def facet_edge_lengths(c):
     return (ufl.MinFacetEdgeLength(c.mesh) + 2 * ufl.MaxFacetEdgeLength(c.mesh)) * v * ds
 
 
+@builder
+def geom_all(c, itype="interior_facet", side="-", which=None):
+    """Every geometric quantity ffcx tabulates, under the given restriction (interior facets) or unrestricted: cell/facet edge
+    vectors and vertices (via edge lengths, diameter), volumes, areas, radii, normals, Jacobians, coordinates."""
+    V = c.V("Lagrange", 1)
+    v = TestFunction(V)
+    m = c.mesh
+    simplex_affine = c.cell in SIMPLICES and c.cdeg == 1
+    Q = {"x": c.x[c.gdim - 1], "n": c.n[0], "diam": CellDiameter(m), "J": ufl.Jacobian(m)[c.gdim - 1, c.tdim - 1],
+         "detJ": ufl.JacobianDeterminant(m), "K": ufl.JacobianInverse(m)[c.tdim - 1, 0]}
+    if c.cdeg == 1:
+        # (single components of CellEdgeVectors / FacetEdgeVectors are not used: UFL leaves the orientation of an edge vector
+        # open, only the lengths built from them are defined)
+        Q.update({"minedge": ufl.MinCellEdgeLength(m), "maxedge": ufl.MaxCellEdgeLength(m), "verts": ufl.classes.CellVertices(m)[c.tdim, 0]})
+        if c.tdim == 3:
+            Q.update({"minfacetedge": ufl.MinFacetEdgeLength(m), "maxfacetedge": ufl.MaxFacetEdgeLength(m)})
+    if simplex_affine:
+        Q.update({"vol": CellVolume(m), "circ": Circumradius(m), "farea": FacetArea(m)})
+    if c.tdim >= 2:
+        Q["FJ"] = ufl.classes.FacetJacobian(m)[c.gdim - 1, 0]
+    names = sorted(Q) if which is None else list(which)
+    e = 0
+    for k, nm in enumerate(names):
+        q = Q[nm]
+        if itype == "interior_facet":
+            sd = side if side in ("+", "-") else ("+", "-")[k % 2]
+            q = q(sd)
+        e = e + (1.0 + 0.37 * k) * q
+    if itype == "interior_facet":
+        return e * v("+") * dS + e * v("-") * dS
+    return e * v * measure(itype)
+
+
 # ============================================================================ mixed-dimensional / several meshes
 @builder
 def submesh_codim0(c, which=0):
